@@ -8,6 +8,20 @@ open Lean Pkgcore.Proto Pkgcore.C18 Pkgcore.C20 Pkgcore.Driver.C18
 
 def strs (l : List String) : Json := .arr (l.map Json.str).toArray
 
+def strPath (x : Json) : Option Path := do
+  let a ← (x.getArr?).toOption
+  let l ← a.toList.mapM (fun y => (y.getStr?).toOption)
+  pure l.reverse
+
+def parsePlanReq (j : Json) : Option (List Entry × List Entry × List (Path × Path × Path)) := do
+  let live ← parseEntries j "live"
+  let new ← parseEntries j "new"
+  let res ← (← getArr j "res").mapM fun r =>
+    match r with
+    | .arr #[a, b, c] => do pure ((← strPath a), (← strPath b), (← strPath c))
+    | _ => none
+  pure (live, new, res)
+
 def handle : Handler := fun cmd j =>
   match cmd with
   | "c20.unmerge" =>
@@ -34,6 +48,14 @@ def handle : Handler := fun cmd j =>
       some (Json.mkObj [("result", .str (excStr r)), ("merge_result", .str (excStr r1)), ("trace", logJson s.log),
         ("mid", fsJson s1.fs), ("fs", fsJson s.fs),
         ("fail", strs (Spec.replacedFailures s1.fs old new s.fs))])
+  | "c20.plan" =>
+    -- res: [[path, resolved-parent path, fully resolved path], …]; identity where absent
+    match parsePlanReq j with
+    | none => some (Json.str "bad-op")
+    | some (live, new, res) =>
+      let resP : Path → Path := fun p => match res.find? (fun r => r.1 = p) with | some r => r.2.1 | none => p
+      let resF : Path → Path := fun p => match res.find? (fun r => r.1 = p) with | some r => r.2.2 | none => p
+      some (.arr ((removePlanOf resP resF live new).map fun (e : Entry) => pathJson e.loc).toArray)
   | "c20.spec.unmerge" =>
     match (do pure (← parseFs j "fs", ← parseEntries j "entries", ← parseFs j "final")) with
     | none => some (Json.str "bad-op")
